@@ -22,6 +22,7 @@ func newExec(e *Engine, sol *Solver) *Exec {
 func (x *Exec) runOnce(dec []Dec, concrete map[string]string) (out abortSig, pr *pathReport) {
 	x.dec = dec
 	x.pos = 0
+	x.prefixLen = len(dec)
 	x.nobj, x.nsym, x.syms = 0, 0, nil
 	x.symTags = map[string]string{}
 	x.tagCount = map[string]int{}
@@ -37,7 +38,8 @@ func (x *Exec) runOnce(dec []Dec, concrete map[string]string) (out abortSig, pr 
 	x.spec = false
 	x.concrete = concrete
 	x.ctxN = 0
-	x.seqLocks, x.wg, x.atomicPtr, x.lastNow, x.guards, x.ufMemo = nil, nil, nil, nil, nil, nil
+	x.decided = map[string]bool{}
+	x.seqLocks, x.wg, x.atomicPtr, x.lastNow, x.guards, x.ufMemo, x.goInline = nil, nil, nil, nil, nil, nil, nil
 	x.allowPanic = x.eng.spec.AllowPanic
 	x.params = x.eng.spec.Params
 	pr = &pathReport{}
